@@ -11,6 +11,7 @@ for d in sorted(glob.glob(ROOT + '/seeded/*')):
         return re.sub(r'\s+', ' ', str(x)).replace('|', '/')[:230]
     rows.append('| %s | %s | %s | %s | %s |' % (os.path.basename(d), m.get('property'), cell(m.get('summary', '')), cell(m.get('needs', '')), cell(fired)))
 s = open(ROOT + '/DESIGN.md').read()
-s = re.sub(r'<!-- SEEDED-TABLE-BEGIN -->.*<!-- SEEDED-TABLE-END -->', '<!-- SEEDED-TABLE-BEGIN -->\n' + '\n'.join(rows) + '\n<!-- SEEDED-TABLE-END -->', s, flags=re.S)
+table = '<!-- SEEDED-TABLE-BEGIN -->\n' + '\n'.join(rows) + '\n<!-- SEEDED-TABLE-END -->'
+s = re.sub(r'<!-- SEEDED-TABLE-BEGIN -->.*<!-- SEEDED-TABLE-END -->', lambda m_: table, s, flags=re.S)
 open(ROOT + '/DESIGN.md', 'w').write(s)
 print(len(rows) - 2, 'seeds')
